@@ -26,7 +26,7 @@ _UNK = object()
 CDS = ("es_resume_cd", "es_patience_cd", "rlr_resume_cd", "rlr_patience_cd")
 PARAMS = dict(early_stopping_patience=2, early_stopping_burnin=1, early_stopping_threshold=Fraction(1, 10),
               reduce_lr_patience=2, reduce_lr_burnin=1, reduce_lr_cooldown=3, reduce_lr_threshold=Fraction(1, 10),
-              reduce_lr_factor=Fraction(1, 2), reduce_lr_log10_epsilon=-6, num_epochs=None)
+              reduce_lr_factor=Fraction(1, 8), reduce_lr_log10_epsilon=-6, num_epochs=None)
 
 
 def _stores(st):
@@ -344,7 +344,9 @@ def transition_table(m: Machine):
                 for rp in (1, 2):
                     for pe in (True, False):
                         for pr in (True, False):
-                            for lr in (Fraction(1, 10), Fraction(1, 10 ** 9), Fraction(2, 10 ** 6)):  # change >, <, == epsilon
+                            # factor 1/8: the CHANGE (7/8 of the rate) and the NEW rate (1/8 of it) are different quantities - change well
+                            # above, below, exactly at epsilon, and above it with the new rate below it
+                            for lr in (Fraction(1, 10), Fraction(1, 10 ** 9), Fraction(8, 7 * 10 ** 6), Fraction(2, 10 ** 6)):
                                 for thr in (Fraction(1, 10), 0):
                                     for ne, epoch in ((None, 3), (0, 3), (5, 3), (3, 3), (2, 3)):
                                         row0 = dict(es_resume_cd=er, es_patience_cd=ep, rlr_resume_cd=rr, rlr_patience_cd=rp, lr=lr)
